@@ -67,11 +67,19 @@ def check(prop, tier, seed):
     quick = tier == "quick"
     # design
     for name, kw in [("1 key, 3 commands, 1 fault", dict()), ("2 keys, 2 commands, 1 fault", dict(keys=2, maxcmds=2))] + \
-            ([] if quick else [("1 key, 3 commands, 2 faults", dict(budget=2)), ("1 key, 4 commands", dict(maxcmds=4))]):
+            ([] if quick else [("1 key, 4 commands", dict(maxcmds=4))]):
         res = run.tlc("OrcaFault", fcfg(**kw), timeout=2400)
         if res.violated:
             raise Infra("OrcaFault (%s) violates %s: specification bug" % (name, res.violated))
         run.log("design %-32s %d distinct states %.0fs" % (name, res.distinct, res.wall))
+    if not quick:
+        # beyond the property's quantifier (ONE faulty request): with two independent refusals - the L1 write of a
+        # set and the compensating L1 delete - the design acknowledges the set and L1 keeps the old value.
+        # Recorded as a fact about the design, not checked as a requirement.
+        res2 = run.tlc("OrcaFault", fcfg(budget=2), timeout=2400, expect_violation=True, count=False)
+        run.extra["two_faults_beyond_scope"] = ("Admissible is violated with two independent faults (refused L1 set + refused compensating delete): "
+                                                "outside C10's single-fault quantifier" if res2.violated else "Admissible holds with two faults as well")
+        run.log("design with 2 faults (informational): " + run.extra["two_faults_beyond_scope"])
     res = run.tlc("OrcaFault", fcfg(known=False), timeout=600, expect_violation=True, count=False)
     if not res.violated:
         raise Infra("negative control failed: without the known-finding exclusion the model should violate Admissible")
